@@ -142,6 +142,8 @@ func (cx *SpecCtx) sortOfVal(v sval) string {
 		return "(Array Int Int)"
 	case "intset":
 		return "(Array Int Bool)"
+	case "strmap":
+		return "(Array Int Str)"
 	}
 	if v.typ != nil {
 		return cx.g.sc.sortOf(v.typ)
@@ -743,9 +745,11 @@ func (cx *SpecCtx) ghostField(st types.Type, name string) (key string, gt types.
 	}
 	for _, sf := range cx.g.env.Specs {
 		for _, gf := range sf.Ghosts {
-			if named.Obj().Name() == gf.Struct && gf.Name == name && (named.Obj().Pkg() == nil || named.Obj().Pkg().Path() == sf.PkgPath) {
+			local := named.Obj().Name() == gf.Struct && (named.Obj().Pkg() == nil || named.Obj().Pkg().Path() == sf.PkgPath)
+			qualified := strings.Contains(gf.Struct, ".") && typeName(st) == gf.Struct
+			if (local || qualified) && gf.Name == name {
 				key = "H:" + typeName(st) + "." + gf.Name
-				if gf.Type == "intmap" || gf.Type == "intset" {
+				if gf.Type == "intmap" || gf.Type == "intset" || gf.Type == "strmap" {
 					special = gf.Type
 				} else {
 					gt = cx.resolveType(gf.Type)
@@ -773,6 +777,9 @@ func (cx *SpecCtx) evalIndex(x *EIndex) sval {
 	}
 	if base.kind == "intset" {
 		return sval{t: fmt.Sprintf("(select %s %s)", base.t, cx.intTerm(x.I)), kind: "bool"}
+	}
+	if base.kind == "strmap" {
+		return sval{t: fmt.Sprintf("(select %s %s)", base.t, cx.intTerm(x.I)), typ: types.Typ[types.String], kind: "val"}
 	}
 	if base.typ == nil {
 		cx.fail("index on untyped value %s", x.X)
@@ -983,13 +990,15 @@ func (cx *SpecCtx) evalCall(x *ECall) sval {
 		return norm(sval{t: g.unboxTerm(t, v.t), typ: t, kind: "val"})
 	case "unchanged":
 		var cs []string
+		ocx := cx.with(cx.old)
+		ocx.locals = false
 		for _, a := range x.Args {
 			n := cx.eval(a)
-			o := cx.with(cx.old).eval(a)
-			n, o = cx.unify(n, o)
+			o := ocx.eval(a)
 			if n.kind == "loc" {
-				n, o = cx.asValue(n), cx.with(cx.old).asValue(o)
+				n, o = cx.asValue(n), ocx.asValue(o)
 			}
+			n, o = cx.unify(n, o)
 			cs = append(cs, fmt.Sprintf("(= %s %s)", n.t, o.t))
 		}
 		return sval{t: and(cs...), kind: "bool"}
